@@ -22,14 +22,14 @@ def build(wt):
 
 
 def suite(wt):
-    """the repository's suite has no per-test time limit: a test that loops is killed after 20 minutes and reported as a hang"""
+    """the repository's suite has no per-test time limit: a test that loops is killed after 10 minutes and reported as a hang"""
     sh("make -C tests clean", cwd=wt)
     p = subprocess.Popen("exec setsid make -k -j8 check > suite.log 2>&1", shell=True, cwd=wt)
     hung = []
     t0 = time.time()
     while p.poll() is None:
         time.sleep(5)
-        if time.time() - t0 > 1200:
+        if time.time() - t0 > 600:
             # kill test programs that are still running (executables of the worktree's tests directory)
             for pid in os.listdir("/proc"):
                 if not pid.isdigit():
@@ -44,7 +44,7 @@ def suite(wt):
                         os.kill(int(pid), 9)
                     except OSError:
                         pass
-            t0 = time.time() - 900          # give the rest five more minutes, then look again
+            t0 = time.time() - 480          # give the rest five more minutes, then look again
     out = open(os.path.join(wt, "suite.log"), errors="replace").read()
     d = dict(re.findall(r"# (\w+):\s+(\d+)", out))
     res = {k: int(v) for k, v in d.items()}
